@@ -26,3 +26,11 @@ chk('C02', 'model_checking',
     'or exhaustive active-set enumeration, compared with the implementation\'s positions at 1e-5, for permuted/relabelled/scaled/medium instances and live re-solves.',
     'As C01. F8 (early exit of IncSolver::solve on re-solve) and F3 are known findings.',
     'TLA+ algorithm spec + declarative QP oracle; TLC BFS/simulation; hook-trace validation; record validation', '4/C02')
+
+chk('C17', 'model_checking',
+    'ShortestPaths.tla defines distances by a Bellman-Ford fixpoint and an O(nm) certificate (potential inequalities + reachability in the tight-edge subgraph); '
+    'TLC proves certificate == Bellman-Ford on every multigraph of the small class (and that every single-entry perturbation is rejected), enumerates every multigraph '
+    'on 4 nodes with <=3 (quick) / <=4 (thorough) edges incl. self-loops, parallel and zero-weight edges for replay, and judges the matrices the real dijkstra / johnsons / '
+    'floyd_warshall / ConstrainedFDLayout::readLinearD,G return for those and for seeded random graphs up to 100 / 300 nodes. Exact equality on a 1/8 weight lattice.',
+    'Weights are multiples of 1/8 (sums exact in doubles). floyd_warshall was repaired (fix: commit) after this check found F1.',
+    'TLA+ Bellman-Ford/certificate specification; TLC-enumerated multigraphs replayed; record validation', '4/C17')
